@@ -1,7 +1,7 @@
 #!/bin/bash
 # usage: tools/with_patch.sh <patch.diff> <command...>   — applies the patch to /repo, runs the command, always restores /repo
 set -u
-patch="$1"; shift
+patch="$(realpath "$1")"; shift
 if ! git -C /repo diff --quiet; then echo "/repo has uncommitted changes; refusing" >&2; exit 3; fi
 git -C /repo apply "$patch" || { echo "patch does not apply" >&2; exit 3; }
 "$@"; rc=$?
